@@ -133,8 +133,8 @@ func (r *Runner) Do(o Op) (obs Obs) {
 }
 
 // CaseTimeout bounds one whole history (some tens of calls, microseconds each
-// on the unchanged tree: the bound is >= 10^5 times the typical duration).
-var CaseTimeout = 10 * time.Second
+// on the unchanged tree: the bound is >= 10^4 times the typical duration).
+var CaseTimeout = 4 * time.Second
 
 // RunGuarded executes a history on a fresh map in its own goroutine; before(i)
 // runs ahead of the i-th call.  It stops after the first panic.  A history
